@@ -302,7 +302,7 @@ pub fn is_pipe(meta: &Metadata) -> bool {
 }
 
 pub fn mode_is_pipe(mode: u32) -> bool {
-    mode & S_IFIFO == S_IFIFO
+    mode & S_IFMT == S_IFIFO
 }
 
 pub fn is_char_device(meta: &Metadata) -> bool {
@@ -313,7 +313,7 @@ pub fn is_char_device(meta: &Metadata) -> bool {
 }
 
 pub fn mode_is_char_device(mode: u32) -> bool {
-    mode & S_IFCHR == S_IFCHR
+    mode & S_IFMT == S_IFCHR
 }
 
 pub fn is_block_device(meta: &Metadata) -> bool {
@@ -324,17 +324,17 @@ pub fn is_block_device(meta: &Metadata) -> bool {
 }
 
 pub fn mode_is_block_device(mode: u32) -> bool {
-    mode & S_IFBLK == S_IFBLK
+    mode & S_IFMT == S_IFBLK
 }
 
 #[cfg(unix)]
 pub fn mode_is_directory(mode: u32) -> bool {
-    mode & S_IFDIR == S_IFDIR
+    mode & S_IFMT == S_IFDIR
 }
 
 #[cfg(unix)]
 pub fn mode_is_link(mode: u32) -> bool {
-    mode & S_IFLNK == S_IFLNK
+    mode & S_IFMT == S_IFLNK
 }
 
 pub fn is_socket(meta: &Metadata) -> bool {
@@ -345,7 +345,7 @@ pub fn is_socket(meta: &Metadata) -> bool {
 }
 
 pub fn mode_is_socket(mode: u32) -> bool {
-    mode & S_IFSOCK == S_IFSOCK
+    mode & S_IFMT == S_IFSOCK
 }
 
 const S_IRUSR: u32 = 0o400;
@@ -364,6 +364,8 @@ const S_ISUID: u32 = 0o4000;
 const S_ISGID: u32 = 0o2000;
 #[cfg(unix)]
 const S_ISVTX: u32 = 0o1000;
+
+const S_IFMT: u32 = 0o170000;
 
 const S_IFBLK: u32 = 0o60000;
 #[cfg(unix)]
